@@ -144,7 +144,7 @@ func genDialectProgram(r *prng.R, k int, ntuples int) *Prog {
 			top.pc(fmt.Sprintf("var %s = %s\n", name, e.p), fmt.Sprintf("var %s = %s\n", name, e.c))
 			resetB.pc(fmt.Sprintf("%s = %s\n", name, e.p), fmt.Sprintf("%s = %s\n", name, e.c))
 		}
-		v := &Var{Name: name, Ty: t, Global: true, Used: true, MinLen: minLen}
+		v := &Var{Name: name, Ty: t, Global: true, Used: true, MinLen: minLen, Clean: t.K == KStr && r.Bool()}
 		g.globals = append(g.globals, v)
 		g.f("prog:global")
 	}
@@ -184,6 +184,15 @@ func genDialectProgram(r *prng.R, k int, ntuples int) *Prog {
 		g.f("prog:recover-helper")
 	}
 
+	// --- a deferred helper whose effect shows the order of deferred calls
+	hasBump := false
+	if recGlobal != nil && r.Chance(1, 2) {
+		hasBump = true
+		top.pc(fmt.Sprintf("func ¶_bump(k int) {\n%s = %s * 3 + k\n}\n", recGlobal.Name, recGlobal.Name),
+			fmt.Sprintf("func ¶_bump(k int) {\nif r := recover(); r != nil {\nck_swallow(r)\n%s = ck_add(ck_mul(%s, 3), k)\npanic(r)\n}\n%s = ck_add(ck_mul(%s, 3), k)\n}\n", recGlobal.Name, recGlobal.Name, recGlobal.Name, recGlobal.Name))
+		g.f("prog:bump-helper")
+	}
+	g.hasBump = hasBump
 	// --- helpers
 	nparams := map[string]int{}
 	nh := r.Intn(5)
@@ -194,11 +203,16 @@ func genDialectProgram(r *prng.R, k int, ntuples int) *Prog {
 			f.Name = fmt.Sprintf("M%d", i)
 			g.f("prog:method")
 		}
+		f.Pure = f.Recv == nil && r.Bool()
 		np := r.Intn(4)
 		pk := []Ty{tInt, tInt, tInt, tBool, tStr, tInts}
+		if f.Pure {
+			pk = []Ty{tInt, tInt, tBool, tStr}
+			g.f("prog:pure-helper")
+		}
 		for j := 0; j < np; j++ {
 			t := pk[r.Intn(len(pk))]
-			if len(g.structs) > 0 && r.Chance(1, 6) {
+			if len(g.structs) > 0 && r.Chance(1, 6) && !f.Pure {
 				t = Ty{K: KPtr, S: g.structs[0]}
 			}
 			f.Params = append(f.Params, &Var{Name: fmt.Sprintf("a%d", j), Ty: t, Used: true})
@@ -258,7 +272,27 @@ func genDialectProgram(r *prng.R, k int, ntuples int) *Prog {
 		}
 		g.genFunc(f, &top, hasRecover, r.Range(3, 10))
 		nparams[rename(f.Name, k, false)] = len(f.Params)
-		p.Entries = append(p.Entries, &Entry{Name: f.Name, Params: kinds, Ret: f.Rets[0].K, Tuples: genTuples(r, kinds, ntuples)})
+		tuples := genTuples(r, kinds, ntuples)
+		p.Entries = append(p.Entries, &Entry{Name: f.Name, Params: kinds, Ret: f.Rets[0].K, Tuples: tuples})
+		// a wrapper that makes the side effects of the call on the int globals (deferred calls included) observable
+		var gi []string
+		for _, v := range g.globals {
+			if v.Ty.K == KInt {
+				gi = append(gi, v.Name)
+			}
+		}
+		if f.Rets[0].K == KInt && len(gi) > 0 {
+			w := fmt.Sprintf("§_W%d", i)
+			var ps, as []string
+			for j, pv := range f.Params {
+				ps = append(ps, pv.Name+" "+pv.Ty.src())
+				as = append(as, fmt.Sprintf("a%d", j))
+			}
+			top.both("func %s(%s) int {\nr := %s(%s)\nreturn r ^ %s\n}\n", w, strings.Join(ps, ", "), f.Name, strings.Join(as, ", "), strings.Join(gi, " ^ "))
+			nparams[rename(w, k, false)] = len(f.Params)
+			p.Entries = append(p.Entries, &Entry{Name: w, Params: kinds, Ret: KInt, Tuples: tuples})
+			g.f("prog:wrapper-entry")
+		}
 	}
 	g.pop()
 
@@ -283,14 +317,63 @@ func genDialectProgram(r *prng.R, k int, ntuples int) *Prog {
 	return p
 }
 
+// observe emits statements that xor-fold every visible container / string / struct into a fresh int variable.
+func (g *G) observe() (E, string) {
+	var s sb
+	acc := g.fresh("acc")
+	s.both("%s := 0\n", acc)
+	vs := g.visible(func(v *Var) bool { return true })
+	n := 0
+	for _, v := range vs {
+		if n >= 4 {
+			break
+		}
+		switch v.Ty.K {
+		case KInts:
+			s.both("for _, e := range %s {\n%s = %s ^ e\n}\n%s = %s ^ len(%s) << 4\n", v.Name, acc, acc, acc, acc, v.Name)
+		case KBytes, KStr:
+			s.both("for i := range %s {\n%s = %s ^ (int(%s[i]) + i)\n}\n", v.Name, acc, acc, v.Name)
+		case KMapII:
+			s.both("for k, e := range %s {\n%s = %s ^ k\n%s = %s ^ e\n}\n", v.Name, acc, acc, acc, acc)
+		case KMapSI:
+			s.both("for _, e := range %s {\n%s = %s ^ e\n}\n%s = %s ^ len(%s) << 5\n", v.Name, acc, acc, acc, acc, v.Name)
+		case KPtr:
+			for _, f := range v.Ty.S.Fields {
+				switch f.Ty.K {
+				case KInt:
+					s.both("%s = %s ^ %s.%s\n", acc, acc, v.Name, f.Name)
+				case KBool:
+					s.both("if %s.%s == false {\n%s = %s ^ 64\n}\n", v.Name, f.Name, acc, acc)
+				case KStr:
+					s.both("%s = %s ^ len(%s.%s) << 7\nif %s.%s == \"\" {\n%s = %s ^ 256\n}\n", acc, acc, v.Name, f.Name, v.Name, f.Name, acc, acc)
+				}
+			}
+		case KBool:
+			s.both("if %s == false {\n%s = %s ^ 128\n}\n", v.Name, acc, acc)
+		default:
+			continue
+		}
+		v.Used = true
+		n++
+		g.f("observe:" + v.Ty.src()[:min(3, len(v.Ty.src()))])
+	}
+	return s.E(), acc
+}
+
 // genFunc renders one function (helper, method or entry) into top.
 func (g *G) genFunc(f *Func, top *sb, hasRecover bool, budget int) {
 	g.cur = f
+	f.group = g.r.Bool()
 	g.nlbl = 0
 	g.push()
 	var ps []string
-	for _, p := range f.Params {
-		ps = append(ps, p.Name+" "+p.Ty.src())
+	for i, p := range f.Params {
+		// `a0, a1 int` and `a0 int, a1 int` are different ast.Field lists
+		if i+1 < len(f.Params) && f.Params[i+1].Ty == p.Ty && f.group {
+			ps = append(ps, p.Name)
+		} else {
+			ps = append(ps, p.Name+" "+p.Ty.src())
+		}
 		v := *p
 		if v.Ty.K == KInts || v.Ty.K == KStr || v.Ty.K == KBytes {
 			v.MinLen = 0
@@ -328,19 +411,50 @@ func (g *G) genFunc(f *Func, top *sb, hasRecover bool, budget int) {
 		s.both("}\n")
 	}
 	g.hasDefer = false
-	if hasRecover && g.r.Chance(1, 3) && !f.Rec {
-		s.both("defer ¶_rec()\n")
-		g.f("func:defer-recover")
-		g.hasDefer = true
+	g.pure = f.Pure
+	g.impure = false
+	if !f.Rec && !f.Pure {
+		// deferred calls at the top of the function (a defer inside a loop is outside the dialect's model)
+		for i := 0; i < 3; i++ {
+			switch {
+			case hasRecover && g.r.Chance(1, 4):
+				s.both("defer ¶_rec()\n")
+				g.f("func:defer-recover")
+				g.hasDefer = true
+			case g.hasBump && g.r.Chance(1, 3):
+				s.both("defer ¶_bump(%d)\n", g.r.Intn(3))
+				g.f("func:defer-bump")
+				g.hasDefer = true
+			}
+		}
 	}
 	g.budget = budget
 	g.depth = 0
-	s.add(g.genBlock(budget))
-	s.add(g.genReturn())
+	g.push()
+	g.depth++
+	for i := 0; i < budget && g.budget > 0; i++ {
+		s.add(g.genStmt())
+	}
+	acc := ""
+	if len(f.Rets) == 1 && f.Rets[0].K == KInt && g.r.Chance(3, 4) {
+		// fold everything that is still visible into the result: makes the contents of slices, maps, strings and
+		// structs observable
+		var obs E
+		obs, acc = g.observe()
+		s.add(obs)
+	}
+	g.depth--
 	s.add(g.pop())
-	// pop() statements after the final return are unreachable but legal; move them before it is not needed
+	fin := g.genReturn()
+	if acc != "" {
+		fin.p = "return (" + strings.TrimSuffix(strings.TrimPrefix(fin.p, "return "), "\n") + ") ^ " + acc + "\n"
+		fin.c = "return (" + strings.TrimSuffix(strings.TrimPrefix(fin.c, "return "), "\n") + ") ^ " + acc + "\n"
+	}
+	s.add(fin)
+	s.add(g.pop())
 	s.both("}\n")
 	g.cur = nil
+	g.pure = false
 	e := s.E()
 	top.add(e)
 }
